@@ -1,16 +1,304 @@
+// Package c20: goctl API formatter — meaning preservation, idempotence, and
+// error-not-crash behaviour of scanner and parser (DESIGN.md §4 C20).
+//
+// Every evaluation hands one source text to the real format.Source /
+// parser.Parse / scanner.NextToken of /repo/tools/goctl under recover(), a trap
+// for log.Fatal, and a generous watchdog, and decides:
+//
+//	valid source (grammar generator, repository corpus accepted by the parser)
+//	  => formatting succeeds; the formatted text parses; the reflective digest
+//	     of both ASTs (token types and texts, structure; no positions, no
+//	     comments) is equal; the non-comment token streams are equal up to ';';
+//	     no comment disappears or appears (white space inside comments ignored);
+//	     formatting the formatted text returns it byte for byte.
+//	any source (mutants, hand-written edge cases, deep nesting)
+//	  => an error or a result, never a panic, a process exit or a hang; and
+//	     when the parser accepts the text, the same oracles as above.
 package c20
 
 import (
-	"bytes"
+	"embed"
+	"hash/fnv"
+	"sort"
+	"strings"
 	"testing"
 
-	"github.com/zeromicro/go-zero/tools/goctl/pkg/parser/api/format"
+	"github.com/zeromicro/go-zero/core/logx"
+
 	"verifharness/kit"
 )
 
+//go:embed testdata/corpus/*.api
+var corpusFS embed.FS
+
+type corpusFile struct {
+	name string
+	src  string
+}
+
+func loadCorpus() []corpusFile {
+	ents, err := corpusFS.ReadDir("testdata/corpus")
+	if err != nil {
+		panic(err)
+	}
+	var out []corpusFile
+	for _, e := range ents {
+		b, err := corpusFS.ReadFile("testdata/corpus/" + e.Name())
+		if err != nil {
+			panic(err)
+		}
+		out = append(out, corpusFile{e.Name(), string(b)})
+	}
+	sort.Slice(out, func(i, j int) bool { return out[i].name < out[j].name })
+	return out
+}
+
+func hashOf(s string) uint64 {
+	h := fnv.New64a()
+	h.Write([]byte(s))
+	return h.Sum64()
+}
+
+// per-process bookkeeping so that a defect that fires thousands of times does
+// not produce thousands of full witnesses or shrink runs
+var (
+	fullWitness = map[string]int{}
+	shrunk      = map[string]int{}
+)
+
+func report(c *kit.Case, fs []finding, src string, o checkOpts, extra map[string]any) {
+	for i, f := range fs {
+		w := f.Witness
+		if fullWitness[f.Key] >= 4 {
+			w = map[string]any{"input": clip(src, 400), "note": "full witness attached to earlier occurrences of this key"}
+		} else {
+			fullWitness[f.Key]++
+			for k, v := range extra {
+				w[k] = v
+			}
+			if i == 0 && shrunk[f.Key] < 2 && !strings.HasPrefix(f.Key, "C20/valid-source-rejected/") && !strings.HasPrefix(f.Key, "C20/hang/") {
+				shrunk[f.Key]++
+				if m := shrink(src, f.Key, o); m != src {
+					w["minimized_input"] = m
+				}
+			}
+		}
+		c.Viol(f.Key, f.What, w)
+	}
+}
+
+// shrink removes lines, then single tokens separated by blanks, while the same
+// violation key keeps being reported. Bounded by a fixed number of evaluations.
+func shrink(src, key string, o checkOpts) string {
+	o.valid = false
+	budget := 300
+	still := func(s string) bool {
+		if budget <= 0 {
+			return false
+		}
+		budget--
+		for _, f := range check([]byte(s), o).findings {
+			if f.Key == key {
+				return true
+			}
+		}
+		return false
+	}
+	cur := strings.Split(src, "\n")
+	for chunk := len(cur) / 2; chunk >= 1; chunk /= 2 {
+		for i := 0; i+chunk <= len(cur); {
+			cand := append(append([]string(nil), cur[:i]...), cur[i+chunk:]...)
+			if len(cand) > 0 && still(strings.Join(cand, "\n")) {
+				cur = cand
+			} else {
+				i += chunk
+			}
+		}
+	}
+	return strings.Join(cur, "\n")
+}
+
+func obsFeatures(c *kit.Case, p *program) {
+	for k, n := range p.feat {
+		c.Obs("construct_"+k, int64(n))
+	}
+}
+
+func tally(c *kit.Case, prefix string, res outcome) {
+	if res.accepted {
+		c.Obs(prefix+"_accepted", 1)
+		c.Obs("ast_leaves_compared", int64(res.nStmts))
+		c.Obs("comments_compared", int64(res.nComments))
+		c.Obs("idempotence_checked", 1)
+	} else {
+		c.Obs(prefix+"_rejected_with_error", 1)
+	}
+	if res.inconcl != "" {
+		c.Inconclusive(res.inconcl)
+	}
+}
+
 func TestVerifC20(t *testing.T) {
-	var b bytes.Buffer
-	err := format.Source([]byte("syntax = \"v1\"\n"), &b)
-	t.Log(err, b.String())
+	logx.Disable()
+	installFatalTrap()
+	corpus := loadCorpus()
+
+	// ---- the repository's own .api files: as they are, with CRLF line ends, and re-formatted
+	kit.Run(t, "C20", "corpus", len(corpus)*3, func(c *kit.Case) {
+		cf := corpus[c.Index%len(corpus)]
+		src := cf.src
+		variant := []string{"as-is", "crlf", "formatted-again"}[c.Index/len(corpus)]
+		switch variant {
+		case "crlf":
+			src = strings.ReplaceAll(strings.ReplaceAll(src, "\r\n", "\n"), "\n", "\r\n")
+		case "formatted-again":
+			if f := runFormat([]byte(src)); f.crash == nil && f.hang == nil && f.err == nil {
+				src = f.out
+			}
+		}
+		// validity of a corpus file is decided by the real parser
+		o := checkOpts{valid: false, degenerate: true}
+		res := check([]byte(src), o)
+		tally(c, "corpus", res)
+		c.Sig(res.accepted && res.nStmts >= 10, "corpus", hashOf(src))
+		report(c, res.findings, src, o, map[string]any{"file": cf.name, "variant": variant})
+		if res.accepted {
+			c.Sample("corpus", 1, map[string]any{"file": cf.name, "variant": variant, "bytes": len(src), "ast_leaves": res.nStmts, "comments": res.nComments})
+		}
+	})
+
+	// ---- grammar-generated valid programs
+	type family struct {
+		name string
+		n    int
+		cfg  func(r *kit.Rand) (genCfg, layoutCfg)
+	}
+	families := []family{
+		{"valid-plain", kit.N(1400, 200000), func(r *kit.Rand) (genCfg, layoutCfg) {
+			lc := layoutCfg{mode: layCommon, commentP: kit.Choose(r, []float64{0, 0.1, 0.3, 0.6})}
+			if r.Chance(0.1) {
+				lc.mode = layCanonical
+			}
+			return genCfg{maxStmts: r.Range(1, 8), maxFields: r.Range(1, 8), maxDepth: 2, maxTypeNst: 3}, lc
+		}},
+		{"valid-odd-literals", kit.N(800, 120000), func(r *kit.Rand) (genCfg, layoutCfg) {
+			return genCfg{maxStmts: r.Range(1, 6), maxFields: r.Range(1, 6), maxDepth: 2, maxTypeNst: 3, oddNames: true, oddStrings: true, multiRaw: r.Chance(0.3)},
+				layoutCfg{mode: layCommon, commentP: kit.Choose(r, []float64{0.1, 0.3, 0.5}), oddText: true, multiBlk: true, crlf: r.Chance(0.1)}
+		}},
+		{"valid-exotic-layout", kit.N(800, 120000), func(r *kit.Rand) (genCfg, layoutCfg) {
+			return genCfg{maxStmts: r.Range(1, 6), maxFields: r.Range(1, 6), maxDepth: 3, maxTypeNst: 4},
+				layoutCfg{mode: layExotic, commentP: kit.Choose(r, []float64{0, 0.1, 0.3}), multiBlk: r.Bool(), crlf: r.Chance(0.1), semis: r.Bool()}
+		}},
+		{"valid-declares-nothing", kit.N(400, 60000), func(r *kit.Rand) (genCfg, layoutCfg) {
+			return genCfg{maxStmts: r.Range(1, 6), maxFields: r.Range(1, 5), maxDepth: 2, maxTypeNst: 3, degenerate: true},
+				layoutCfg{mode: layCommon, commentP: kit.Choose(r, []float64{0, 0.2})}
+		}},
+	}
+	for _, fam := range families {
+		fam := fam
+		kit.Run(t, "C20", fam.name, fam.n, func(c *kit.Case) {
+			gc, lc := fam.cfg(c.R)
+			p := generate(c.R, gc)
+			src, comments := render(p, c.R, lc)
+			o := checkOpts{valid: true, degenerate: p.degenerate, comments: comments}
+			res := check([]byte(src), o)
+			obsFeatures(c, p)
+			tally(c, "valid", res)
+			for _, pc := range comments {
+				c.Obs("comment_"+pc.Where, 1)
+			}
+			c.Sig(res.accepted && res.nStmts >= 10 && (len(comments) > 0 || lc.mode != layCanonical), fam.name, hashOf(src))
+			report(c, res.findings, src, o, map[string]any{"family": fam.name})
+			if res.accepted && res.nStmts >= 20 && len(comments) >= 2 {
+				c.Sample(fam.name, 1, map[string]any{"source": clip(src, 1500), "formatted": clip(res.formatted, 1500), "ast_leaves": res.nStmts, "comments": len(comments)})
+			}
+		})
+	}
+
+	// ---- invalid variants: token-level mutations of generated programs
+	const perCase = 20
+	kit.Run(t, "C20", "mutants-token", kit.N(300, 60000), func(c *kit.Case) {
+		p := generate(c.R, genCfg{maxStmts: c.R.Range(1, 4), maxFields: c.R.Range(1, 4), maxDepth: 2, maxTypeNst: 3, degenerate: c.R.Chance(0.2)})
+		for k := 0; k < perCase; k++ {
+			src, mut := mutateTokens(p, c.R)
+			if c.R.Chance(0.15) {
+				var m2 string
+				src, m2 = mutateBytes(src, c.R)
+				mut += "+" + m2
+			}
+			o := checkOpts{degenerate: true}
+			res := check([]byte(src), o)
+			tally(c, "mutant", res)
+			c.Obs("mutation_"+strings.SplitN(mut, ":", 2)[0], 1)
+			c.Sig(!res.accepted, "mutant", hashOf(src))
+			report(c, res.findings, src, o, map[string]any{"mutation": mut})
+			if !res.accepted && k == 0 {
+				c.Sample("mutants-token", 1, map[string]any{"mutation": mut, "source": clip(src, 600)})
+			}
+		}
+		c.Evals(perCase)
+	})
+
+	// ---- invalid variants: byte-level mutations of generated programs and corpus files
+	kit.Run(t, "C20", "mutants-byte", kit.N(250, 50000), func(c *kit.Case) {
+		var base string
+		if c.R.Chance(0.3) {
+			base = kit.Choose(c.R, corpus).src
+			if len(base) > 3000 {
+				i := c.R.Intn(len(base) - 3000)
+				base = base[i : i+3000]
+			}
+		} else {
+			p := generate(c.R, genCfg{maxStmts: c.R.Range(1, 4), maxFields: c.R.Range(1, 4), maxDepth: 2, maxTypeNst: 3, oddStrings: c.R.Bool()})
+			base, _ = render(p, c.R, layoutCfg{mode: c.R.Intn(3), commentP: 0.2, multiBlk: true})
+		}
+		for k := 0; k < perCase; k++ {
+			src, mut := mutateBytes(base, c.R)
+			for c.R.Chance(0.3) {
+				var m2 string
+				src, m2 = mutateBytes(src, c.R)
+				mut += "+" + m2
+			}
+			o := checkOpts{degenerate: true}
+			res := check([]byte(src), o)
+			tally(c, "mutant", res)
+			c.Obs("mutation_"+strings.SplitN(mut, "+", 2)[0], 1)
+			c.Sig(!res.accepted, "mutant", hashOf(src))
+			report(c, res.findings, src, o, map[string]any{"mutation": mut})
+		}
+		c.Evals(perCase)
+	})
+
+	// ---- hand-written edge cases of scanner and parser (each alone, and embedded after a valid prefix)
+	kit.Run(t, "C20", "edge-cases", len(handWritten)*2, func(c *kit.Case) {
+		src := handWritten[c.Index%len(handWritten)]
+		if c.Index >= len(handWritten) {
+			src = "syntax = \"v1\"\n\ntype Pre {\n\tA int `json:\"a\"`\n}\n\n" + src
+		}
+		o := checkOpts{degenerate: true}
+		res := check([]byte(src), o)
+		tally(c, "edge", res)
+		c.Sig(!res.accepted, "edge", hashOf(src))
+		report(c, res.findings, src, o, nil)
+		c.Sample("edge-cases", 1, map[string]any{"source": src, "accepted": res.accepted})
+	})
+
+	// ---- deep nesting / long inputs
+	depths := []int{1, 2, 3, 5, 8, 12, 16, 24, 32, 64, 100, 200, 400}
+	if kit.Thorough() {
+		depths = append(depths, 800, 1500, 3000)
+	}
+	kit.Run(t, "C20", "deep-nesting", len(depths)*9, func(c *kit.Case) {
+		d := depths[c.Index%len(depths)]
+		src, shape := deepNesting(c.Index/len(depths), d)
+		o := checkOpts{degenerate: true}
+		res := check([]byte(src), o)
+		tally(c, "deep", res)
+		c.Obs("deep_"+shape, 1)
+		c.Sig(true, "deep", shape, d)
+		report(c, res.findings, clip(src, 4000), o, map[string]any{"shape": shape, "depth": d})
+	})
+
 	kit.End()
 }
+
